@@ -61,7 +61,7 @@ func init() {
 	register(func() {
 		engine.Register(&engine.Check{
 			ID: "C16", Level: "fault_enumeration",
-			Rule:        "fault enumeration: (a) for every event stream of the C01 language (trees, scalars, strings, lengths, extended events) x 3 encoders a dry run counts the W writes, then for EVERY k < W the k-th and all later writes fail; the event sequence must report an error no later than its last event; (b) for every document of the three wire languages x {Parse, ParseReader, Write in single bytes}, for Fold of a set of Go values, and for the extended-event adapters, a dry run counts the E events, then for EVERY k < E the visitor fails at event k; the outermost call must return exactly the injected error and deliver no further event; a case = (producer/consumer, input, k), distinct by that triple; non-trivial = k > 0 (the fault is not at the very first step)",
+			Rule:        "fault enumeration: (a) for every event stream of the C01 language (trees, scalars, strings, lengths, extended events) x 3 encoders a dry run counts the W writes, then for EVERY k < W the k-th and all later writes fail; the event sequence must report an error no later than its last event; (b) for every document of the three wire languages x {Parse, ParseReader, Write in single bytes followed by a Write of the rest after the failure, byte-slice and reader Decoder.Next followed by a second Next}, for Fold of a set of Go values, and for the extended-event adapters, a dry run counts the E events, then for EVERY k < E the visitor fails at event k; the outermost call must return exactly the injected error and deliver no further event; a case = (producer/consumer, input, k), distinct by that triple; non-trivial = k > 0 (the fault is not at the very first step)",
 			Assumptions: []string{"the failing writer keeps failing (as the property states)", "Fold is exercised on a fixed set of Go values and on the one-field, scalar-container, nested-inline and seed families of the Go type space of C11/C12"},
 			Families:    c16Families,
 			Require:     []string{"write_faults", "visitor_faults"},
@@ -161,8 +161,8 @@ func c16Families(tier string) []engine.Family {
 			return
 		}
 		k := x.Choose(E)
-		entry := x.Choose(3)
-		entryName := [...]string{"Parse", "ParseReader", "Write"}[entry]
+		entry := x.Choose(5)
+		entryName := [...]string{"Parse", "ParseReader", "Write", "BytesDecoder.Next", "ReaderDecoder.Next"}[entry]
 		x.Case(fmt.Sprintf("v|%s|%x|%d|%d", cd.Name, c.Doc, entry, k), k > 0)
 		x.Sample(func() interface{} {
 			m := c.Desc().(map[string]interface{})
@@ -170,24 +170,49 @@ func c16Families(tier string) []engine.Family {
 			return m
 		})
 		rec := &model.Recorder{FailAt: k, Err: errInjected}
-		res := guard(int64(20000+400*len(c.Doc)), func() error {
+		var laterErr error
+		laterCalled := false
+		res := guard(int64(40000+800*len(c.Doc)), func() error {
 			switch entry {
 			case 0:
 				return cd.Parse(c.Doc, rec)
 			case 1:
 				_, err := cd.ParseReader(&chunkReader{doc: c.Doc, chunks: [][2]int{{0, len(c.Doc)}}}, rec)
 				return err
-			default:
+			case 2:
 				w := cd.NewWriter(rec)
 				for i := range c.Doc {
 					if _, err := w.Write(c.Doc[i : i+1]); err != nil {
+						// "delivers no further event of that document": neither when the caller goes on writing the rest
+						if i+1 < len(c.Doc) {
+							_, laterErr = w.Write(c.Doc[i+1:])
+							laterCalled = true
+						}
 						return err
 					}
 				}
 				return nil
+			default:
+				var d Nexter
+				if entry == 3 {
+					d = cd.BytesDec(exact(c.Doc), rec)
+				} else {
+					d = cd.ReaderDec(&chunkReader{doc: c.Doc, chunks: [][2]int{{0, len(c.Doc)}}}, 7, rec)
+				}
+				err := d.Next()
+				if err != nil {
+					// ... nor when Next is called again
+					laterErr = d.Next()
+					laterCalled = true
+				}
+				return err
 			}
 		})
-		if entry == 2 && len(rec.Evs) <= k && res.Err == nil && !res.Bad() {
+		if laterCalled && laterErr == nil && !res.Bad() && res.Err != nil && rec.After == 0 {
+			x.Violation(cd.Name+"."+entryName, "later-call-succeeds", "visitor-error-forgotten:"+entryName, "after the visitor's error had been returned, the next call on the same instance returned nil", map[string]interface{}{"codec": cd.Name, "hex": hexs(c.Doc), "failing_event": k, "entry": entryName})
+			return
+		}
+		if (entry == 2 || entry >= 3) && len(rec.Evs) <= k && res.Err == nil && !res.Bad() {
 			// a Write sequence has no end-of-input: a trailing top-level JSON number is never reported
 			x.Count("fault_not_reachable_without_end_of_input", 1)
 			return
